@@ -77,6 +77,16 @@ def searchVec (dist : List F → List F → D) (pcmp : D → D → Option Orderi
       | none => .error .vecNotEnabled
       | some docs => .ok (search dist pcmp docs query limit)
 
+/-! ### exact instance run by the driver: squared distances over ℚ, compared exactly -/
+
+/-- total comparison of rationals in `partial_cmp` shape -/
+def ratCmp (x y : Rat) : Option Ordering :=
+  if x < y then some .lt else if y < x then some .gt else some .eq
+
+/-- exact squared distance (same order as the distance itself); `-1` marks the debug-assert
+    panic of a length mismatch, which the driver reports before searching -/
+def sqDist (q e : List Rat) : Rat := (Simd.l2DistanceSquaredSimd Simd.ratOps q e).getD (-1)
+
 /-! ### persistence of the uncompressed index: bincode (fixed-int, little-endian) of
     `Vec<VecDocument>`; an f32 travels as its 32-bit pattern (`Nat < 2^32`) -/
 
